@@ -10,6 +10,7 @@ import (
 	"errors"
 	"fmt"
 	"io"
+	"os"
 	"runtime"
 	"strconv"
 	"strings"
@@ -21,6 +22,7 @@ import (
 	"github.com/aperturerobotics/bifrost/util/rwc"
 
 	"verif/harness/lib"
+	"verif/harness/quiet"
 )
 
 // ---------------------------------------------------------------------------------------------
@@ -308,7 +310,7 @@ func (e *engine) concPkt(det bool, i int) {
 	for _, p := range payloads {
 		want = append(want, lib.Hex(p))
 	}
-	e.pktCase(max, e.rng.Chunk(wire, i%4), nil, gen+"-readback", want, "eof")
+	e.pktCase(max, e.rng.Chunk(wire, i%4), nil, gen+"-readback", want, "eof", rxOpts{})
 }
 
 // concSess runs nw goroutines calling the real Session.SendMsg concurrently on a stream whose
@@ -387,7 +389,7 @@ func (e *engine) concSess(det bool, i int) {
 	for _, p := range payloads {
 		want = append(want, lib.Hex(p))
 	}
-	e.sessCase(max, e.rng.Chunk(sw.wireB, i%4), gen+"-readback", want, "eof")
+	e.sessCase(max, e.rng.Chunk(sw.wireB, i%4), gen+"-readback", want, "eof", rxOpts{}, false)
 }
 
 // ---------------------------------------------------------------------------------------------
@@ -731,7 +733,7 @@ func (c *endReader) Read(p []byte) (int, error) {
 }
 
 func (e *engine) runC09End() {
-	e.rep.Require("cend.eof", "cend.err", "cend.err.withlast", "cend.err.empty", "cend.eof.withlast", "cend.withlast.multibuf")
+	e.rep.Require("cend.eof", "cend.err", "cend.err.withlast", "cend.err.empty", "cend.eof.withlast", "cend.withlast.multibuf", "cend.fullqueue")
 	n := 60 * e.a.Scale
 	for i := 0; i < n; i++ {
 		var chunks [][]byte
@@ -764,6 +766,24 @@ func (e *engine) runC09End() {
 				all = append([]byte(nil), chunks[0]...)
 			}
 		}
+		// full queue: the consumer lags by exactly the queue capacity when the underlying stream
+		// hands out its last bytes together with the end (k + queueN one-read chunks, then the
+		// final chunk with the error; the consumer takes k of them, lets the pump come to rest
+		// holding the final chunk, and only then drains)
+		queueN, lagReads := 64, -1
+		if i%5 == 3 {
+			queueN = 1 + e.rng.Intn(3)
+			lagReads = e.rng.Intn(3)
+			chunks, all = nil, nil
+			for j := 0; j < queueN+lagReads+1; j++ {
+				c := e.rng.Bytes(1 + e.rng.Intn(300))
+				if e.rng.Intn(4) == 0 {
+					c = e.rng.Bytes(2048)
+				}
+				chunks = append(chunks, c)
+				all = append(all, c...)
+			}
+		}
 		endTok := "eof"
 		var endErr error = io.EOF
 		if i%3 != 0 {
@@ -771,7 +791,7 @@ func (e *engine) runC09End() {
 			endErr = ee
 			endTok = strconv.Itoa(ee.code)
 		}
-		withLast := i%4 == 1
+		withLast := i%4 == 1 || lagReads >= 0
 		// reads: enough large buffers to drain, plus extra reads that must all report the end
 		nReads := 3 + e.rng.Intn(3)
 		for _, c := range chunks {
@@ -788,8 +808,8 @@ func (e *engine) runC09End() {
 			ctx, cancel := context.WithCancel(context.Background())
 			defer cancel()
 			r := &endReader{chunks: cloneChunks(chunks), err: endErr, withLast: withLast}
-			c := rwc.NewConn(ctx, r, addr("l"), addr("r"), 64)
-			if i%2 == 0 {
+			c := rwc.NewConn(ctx, r, addr("l"), addr("r"), queueN)
+			if i%2 == 0 && lagReads < 0 {
 				// let the pump reach the end of the stream before the first Read, so that the
 				// error is already recorded while the queue is still full
 				dl := time.Now().Add(time.Second)
@@ -801,7 +821,17 @@ func (e *engine) runC09End() {
 			var reads []string
 			var got []byte
 			ended := false
-			for _, bl := range bufs {
+			for ri, bl := range bufs {
+				if ri == lagReads {
+					// synchronisation only: the pump has handed out the end of the underlying stream
+					// (or sits blocked) and no goroutine is runnable
+					quiet.Settle(func() int {
+						if r.ended.Load() {
+							return 1
+						}
+						return 0
+					}, 50*time.Microsecond, 3, 200*time.Millisecond)
+				}
 				buf := make([]byte, bl)
 				_ = c.SetReadDeadline(time.Now().Add(10 * time.Second))
 				nr, err := c.Read(buf)
@@ -865,6 +895,9 @@ func (e *engine) runC09End() {
 		if withLast && len(chunks) > 0 && len(chunks[len(chunks)-1]) > 2048 {
 			e.rep.Branches["cend.withlast.multibuf"]++
 		}
+		if lagReads >= 0 {
+			e.rep.Branches["cend.fullqueue"]++
+		}
 		e.rep.Case(op, model, impl, br, true)
 		if model != impl || mon != "" {
 			d := lib.Disagreement{Op: trunc(op), Model: trunc(model), Impl: trunc(impl), Branch: br, Key: "framing.conn:end"}
@@ -875,5 +908,229 @@ func (e *engine) runC09End() {
 			}
 			e.rep.Disagree(d)
 		}
+	}
+}
+
+// closeReader is an underlying stream that blocks when its script is exhausted until Close is
+// called, and then fails with io.ErrClosedPipe (what a pipe or socket does).
+type closeReader struct {
+	ch      chan []byte
+	left    []byte
+	closed  chan struct{}
+	closes  atomic.Int32
+	waiting atomic.Bool
+}
+
+func newCloseReader() *closeReader {
+	return &closeReader{ch: make(chan []byte, 64), closed: make(chan struct{})}
+}
+
+func (g *closeReader) Read(p []byte) (int, error) {
+	if len(g.left) == 0 {
+		select {
+		case c := <-g.ch:
+			g.left = c
+		default:
+			g.waiting.Store(true)
+			select {
+			case c := <-g.ch:
+				g.waiting.Store(false)
+				g.left = c
+			case <-g.closed:
+				return 0, io.ErrClosedPipe
+			}
+		}
+	}
+	n := copy(p, g.left)
+	g.left = g.left[n:]
+	return n, nil
+}
+func (g *closeReader) Write(p []byte) (int, error) { return len(p), nil }
+func (g *closeReader) Close() error {
+	if g.closes.Add(1) == 1 {
+		close(g.closed)
+	}
+	return nil
+}
+
+// runC09Close: Close and read deadlines on a real Conn with data still queued. Whatever a Read
+// with an expired deadline returns (the deadline error or queued data — both are legitimate), no
+// byte may be lost or reordered: the successful reads, concatenated, are the written stream; Close
+// closes the underlying stream exactly once, the queued bytes remain readable, and then the
+// underlying error is reported.
+func (e *engine) runC09Close() {
+	e.rep.Require("conn.close", "conn.deadline")
+	n := 12 * e.a.Scale
+	for i := 0; i < n; i++ {
+		var chunks [][]byte
+		var all []byte
+		for j := 0; j < 2+e.rng.Intn(5); j++ {
+			c := e.rng.Bytes(1 + e.rng.Intn(600))
+			chunks = append(chunks, c)
+			all = append(all, c...)
+		}
+		mon := ""
+		set := func(m string) {
+			if mon == "" {
+				mon = m
+			}
+		}
+		what := "deadline"
+		if i%2 == 0 {
+			what = "close"
+		}
+		res := lib.Recover(func() string {
+			ctx, cancel := context.WithCancel(context.Background())
+			defer cancel()
+			g := newCloseReader()
+			c := rwc.NewConn(ctx, g, addr("l"), addr("r"), 16)
+			for _, ch := range chunks {
+				g.ch <- ch
+			}
+			// synchronisation only: the pump has queued everything and waits for more
+			quiet.Settle(func() int {
+				if g.waiting.Load() && len(g.ch) == 0 {
+					return 1
+				}
+				return 0
+			}, 50*time.Microsecond, 3, 200*time.Millisecond)
+			var got []byte
+			buf := make([]byte, 4096)
+			if what == "deadline" {
+				// reads with a deadline that has already passed, data being queued
+				_ = c.SetReadDeadline(time.Now().Add(-time.Second))
+				for k := 0; k < 1+e.rng.Intn(4); k++ {
+					nr, err := c.Read(buf)
+					switch {
+					case err == nil:
+						got = append(got, buf[:nr]...)
+					case errors.Is(err, os.ErrDeadlineExceeded):
+						if nr != 0 {
+							set(fmt.Sprintf("Conn.Read returned %d bytes together with the deadline error", nr))
+						}
+					default:
+						set("Conn.Read with an expired deadline failed with " + err.Error())
+					}
+				}
+				_ = c.SetReadDeadline(time.Time{})
+			} else {
+				if err := c.Close(); err != nil {
+					set("Conn.Close failed: " + err.Error())
+				}
+				if g.closes.Load() != 1 {
+					set(fmt.Sprintf("Conn.Close closed the underlying stream %d times", g.closes.Load()))
+				}
+			}
+			// drain
+			var endErr error
+			for k := 0; k < len(chunks)+3; k++ {
+				if what == "deadline" && len(got) == len(all) {
+					break // the stream is still open: the next Read would block
+				}
+				_ = c.SetReadDeadline(time.Now().Add(10 * time.Second))
+				nr, err := c.Read(buf)
+				if err != nil {
+					if nr != 0 {
+						set(fmt.Sprintf("Conn.Read returned %d bytes together with %q", nr, err.Error()))
+					}
+					endErr = err
+					break
+				}
+				got = append(got, buf[:nr]...)
+			}
+			if string(got) != string(all) {
+				off := 0
+				for off < len(got) && off < len(all) && got[off] == all[off] {
+					off++
+				}
+				set(fmt.Sprintf("%s with data queued: the reads returned %d bytes, the peer had written %d; first difference at offset %d (no short buffer was reported)", what, len(got), len(all), off))
+			}
+			if what == "close" && endErr != io.ErrClosedPipe {
+				set(fmt.Sprintf("after Close and draining, Conn.Read reported %v instead of the underlying stream's error (io: read/write on closed pipe)", endErr))
+			}
+			if what == "deadline" && endErr != nil {
+				set("Conn.Read failed with " + endErr.Error() + " although the stream is open and data was queued")
+			}
+			return "ok"
+		})
+		if strings.HasPrefix(res, "panic") {
+			mon = "Conn panicked (" + what + " with data queued): " + trunc(res)
+		}
+		e.rep.Compare(fmt.Sprintf("framing.conn.%s #%d chunks=%d", what, i, len(chunks)), "ok", "ok", "conn."+what, "framing.conn:"+what, mon)
+	}
+}
+
+// runC08Burst: framed packets pushed in bursts against a lagging ReadFrom while WriteTo calls share
+// the packet arena (buffers are recycled through the pool while packets are still queued), with
+// queue capacities from 1 up. Every packet must come out once, in order, unmodified.
+func (e *engine) runC08Burst() {
+	e.rep.Require("pkt.burst")
+	prev := runtime.GOMAXPROCS(1) // sync.Pool is per-P: make buffer recycling deterministic
+	defer runtime.GOMAXPROCS(prev)
+	n := 24 * e.a.Scale
+	for i := 0; i < n; i++ {
+		max := uint32(2048)
+		queueN := []int{1, 2, 3, 32}[i%4]
+		np := 3 + e.rng.Intn(8)
+		var pkts [][]byte
+		for j := 0; j < np; j++ {
+			sz := []int{1, 100, 500, 548, 1000, 1500, 2044, 2047, 2048}[e.rng.Intn(9)]
+			p := make([]byte, sz)
+			for k := range p {
+				p[k] = byte('A' + j)
+			}
+			pkts = append(pkts, p)
+		}
+		ctx, cancel := context.WithCancel(context.Background())
+		g := &gatedReader{ch: make(chan []byte, 64)}
+		pc := rwc.NewPacketConn(ctx, g, addr("l"), addr("r"), max, queueN)
+		mon := ""
+		var got [][]byte
+		readOne := func() {
+			buf := make([]byte, 4096)
+			_ = pc.SetReadDeadline(time.Now().Add(5 * time.Second))
+			nr, _, err := pc.ReadFrom(buf)
+			if err != nil {
+				mon = "ReadFrom failed: " + err.Error()
+				return
+			}
+			got = append(got, append([]byte(nil), buf[:nr]...))
+		}
+		push := func(p []byte) {
+			fr := append(le32(uint32(len(p))), p...)
+			if e.rng.Intn(2) == 0 {
+				k := 1 + e.rng.Intn(len(fr)-1)
+				g.ch <- fr[:k]
+				g.ch <- fr[k:]
+			} else {
+				g.ch <- fr
+			}
+		}
+		// schedule: the first packet is pushed and read (its buffer returns to the arena), a WriteTo
+		// borrows and returns an arena buffer, the rest arrives as a burst while nobody reads
+		push(pkts[0])
+		readOne()
+		_, _ = pc.WriteTo(e.rng.Bytes(1+e.rng.Intn(1500)), addr("r"))
+		for _, p := range pkts[1:] {
+			push(p)
+		}
+		quiet.Settle(func() int { return len(g.ch) }, 50*time.Microsecond, 3, 100*time.Millisecond)
+		for len(got) < len(pkts) && mon == "" {
+			readOne()
+			if e.rng.Intn(3) == 0 {
+				_, _ = pc.WriteTo(e.rng.Bytes(1+e.rng.Intn(1500)), addr("r"))
+			}
+		}
+		cancel()
+		close(g.ch)
+		if mon == "" {
+			for j := range pkts {
+				if string(got[j]) != string(pkts[j]) {
+					mon = fmt.Sprintf("packet #%d read from the PacketConn (%d bytes, first byte %q) differs from the packet written (%d bytes of %q): burst against a lagging reader, queue capacity %d", j, len(got[j]), got[j][:1], len(pkts[j]), pkts[j][:1], queueN)
+					break
+				}
+			}
+		}
+		e.rep.Compare(fmt.Sprintf("framing.pkt.burst q=%d n=%d #%d", queueN, np, i), "x", "x", "pkt.burst", "framing.pkt:burst", mon)
 	}
 }
